@@ -15,6 +15,7 @@ import (
 	"reflect"
 	"strings"
 	"sync"
+	"sync/atomic"
 	"testing"
 	"time"
 
@@ -46,6 +47,12 @@ type Op struct {
 	// Restop: the temp actor is stopped a second time after it is gone; the undeliverable stop request
 	// is a dead-letter occurrence (engine.go: "if we didn't find a process, we will broadcast a DeadletterEvent")
 	Restop bool `json:"restop,omitempty"`
+	// DupChild: the temp actor has a child (spawned in Started); it is asked to SpawnChild the same kind
+	// and id again: one ActorDuplicateIdEvent, as for a top-level duplicate
+	DupChild bool `json:"dup_child,omitempty"`
+	// SelfSend: from inside its Stopped handler the temp actor sends a message to its own PID.  The
+	// actor is unregistered by then, so this is a send to a PID without a registered actor: one dead letter.
+	SelfSend bool `json:"self_send,omitempty"`
 	// send
 	Tgt string `json:"tgt,omitempty"` // nil never stopped foreign live
 	Snd int    `json:"snd,omitempty"` // 0 = no sender
@@ -87,12 +94,22 @@ type subscriber struct {
 	sents  int
 	pid    *actor.PID
 	gone   bool
+	heir   func(c *actor.Context) // run once inside the Stopped handler
 }
 
 func (s *subscriber) receive(c *actor.Context) {
 	var r rec
 	switch m := c.Message().(type) {
-	case actor.Initialized, actor.Started, actor.Stopped:
+	case actor.Initialized, actor.Started:
+		return
+	case actor.Stopped:
+		s.mu.Lock()
+		f := s.heir
+		s.heir = nil
+		s.mu.Unlock()
+		if f != nil {
+			f(c)
+		}
 		return
 	case Ev:
 		r = rec{kind: "ev", phase: m.Phase, g: m.G, n: m.N}
@@ -130,7 +147,9 @@ func (s *subscriber) receive(c *actor.Context) {
 	s.mu.Unlock()
 }
 
-func (s *subscriber) waitFor(f func() bool) error {
+func (s *subscriber) waitFor(f func() bool) error { return s.waitForD(wait, f) }
+
+func (s *subscriber) waitForD(wait time.Duration, f func() bool) error {
 	deadline := time.Now().Add(wait)
 	tm := time.AfterFunc(wait, func() { s.mu.Lock(); s.cond.Broadcast(); s.mu.Unlock() })
 	defer tm.Stop()
@@ -223,8 +242,38 @@ func (h *harness) barrier() error {
 	h.nsent++
 	n := h.nsent
 	h.e.BroadcastEvent(sentinel{n})
-	if err := h.anchor.waitFor(func() bool { return h.anchor.sents >= n }); err != nil {
-		return fmt.Errorf("%w: the anchor subscriber never saw sentinel %d", errInconclusive, n)
+	if err := h.anchor.waitForD(5*time.Second, func() bool { return h.anchor.sents >= n }); err != nil {
+		// The anchor has been subscribed since before the history began.  Is the event stream merely
+		// slow, or was the sentinel lost?  Events broadcast by one goroutine reach a subscriber in
+		// broadcast order, so a LATER event of this goroutine arriving while the sentinel is still
+		// missing decides it.  The follow-up is a lifecycle event (a different kind of event than the
+		// sentinel, in case the loss depends on the kind).
+		h.anchor.mu.Lock()
+		before := len(h.anchor.log)
+		h.anchor.mu.Unlock()
+		h.tmpN++
+		fp := h.e.SpawnFunc(func(*actor.Context) {}, "followup", actor.WithID(fmt.Sprint(h.tmpN)))
+		arrived := h.anchor.waitForD(wait, func() bool {
+			if h.anchor.sents >= n {
+				return true
+			}
+			for _, r := range h.anchor.log[before:] {
+				if r.kind == "life" && strings.HasPrefix(r.text, "started:followup/") {
+					return true
+				}
+			}
+			return false
+		}) == nil
+		h.e.Poison(fp)
+		h.anchor.mu.Lock()
+		seen := h.anchor.sents >= n
+		h.anchor.mu.Unlock()
+		if arrived && !seen {
+			return fmt.Errorf("an event broadcast while a subscriber was subscribed never reached it, although a later event of the same goroutine did (sentinel %d lost by the event stream)", n)
+		}
+		if !seen {
+			return fmt.Errorf("%w: the anchor subscriber never saw sentinel %d", errInconclusive, n)
+		}
 	}
 	for _, s := range append([]*subscriber{h.anchor}, h.subs...) {
 		if s.gone {
@@ -353,18 +402,50 @@ func run(c Case, c09 bool) (feat map[string]int, err error) {
 			h.tmpN++
 			id := fmt.Sprintf("tmp/%d", h.tmpN)
 			pinged := make(chan struct{}, 4)
+			withChild := op.DupChild && !op.Crash
+			selfSend := op.SelfSend
+			var crashing atomic.Bool // the Stopped told to a crashed incarnation is not the final one
 			f := func(c *actor.Context) {
 				switch m := c.Message().(type) {
+				case actor.Started:
+					if withChild {
+						c.SpawnChildFunc(func(*actor.Context) {}, "kid", actor.WithID("0"))
+					}
+				case actor.Stopped:
+					if selfSend && !crashing.Load() {
+						c.Send(c.PID(), "from-stopped")
+					}
 				case string:
 					if m == "crash" {
 						panic("generated crash")
 					}
 					pinged <- struct{}{}
+				case func(*actor.Context):
+					m(c)
 				}
 			}
 			tp := e.SpawnFunc(f, "tmp", actor.WithID(fmt.Sprint(h.tmpN)), actor.WithRestartDelay(0))
+			if withChild {
+				// the child is started inside the parent's Started handler, i.e. before the parent's own event
+				h.add(exp{kind: "life", text: "started:" + id + "/kid/0"})
+			}
 			h.add(exp{kind: "life", text: "started:" + id})
+			if withChild {
+				done := make(chan struct{})
+				e.Send(tp, func(c *actor.Context) {
+					c.SpawnChildFunc(func(*actor.Context) {}, "kid", actor.WithID("0"))
+					close(done)
+				})
+				select {
+				case <-done:
+				case <-time.After(wait):
+					return nil, fmt.Errorf("%w: temp actor did not spawn the duplicate child", errInconclusive)
+				}
+				h.add(exp{kind: "life", text: "duplicate:" + id + "/kid/0"})
+				h.note("life-duplicate-child")
+			}
 			if op.Crash {
+				crashing.Store(true)
 				e.Send(tp, "crash")
 				e.Send(tp, "ping")
 				select {
@@ -375,6 +456,7 @@ func run(c Case, c09 bool) (feat map[string]int, err error) {
 				h.add(exp{kind: "life", text: "restarted(1):" + id})
 				h.add(exp{kind: "life", text: "started:" + id})
 				h.note("life-crash")
+				crashing.Store(false)
 			}
 			if op.Dup {
 				e.SpawnFunc(f, "tmp", actor.WithID(fmt.Sprint(h.tmpN)))
@@ -385,6 +467,13 @@ func run(c Case, c09 bool) (feat map[string]int, err error) {
 			case <-e.Poison(tp).Done():
 			case <-time.After(wait):
 				return nil, fmt.Errorf("%w: poison of a temp actor not done", errInconclusive)
+			}
+			if withChild {
+				h.add(exp{kind: "life", text: "stopped:" + id + "/kid/0"}) // children first
+			}
+			if selfSend {
+				h.add(exp{kind: "dl", tgt: tp, snd: tp, msg: "from-stopped"})
+				h.note("send-from-inside-the-Stopped-handler")
 			}
 			h.add(exp{kind: "life", text: "stopped:" + id})
 			if op.Dead {
@@ -412,14 +501,19 @@ func run(c Case, c09 bool) (feat map[string]int, err error) {
 			snd := h.senders[op.Snd]
 			msg := msgVal(op.Msg)
 			var tgt *actor.PID
+			isStop := op.Via == "stop" || op.Via == "poison"
 			switch op.Tgt {
 			case "nil":
 			case "never":
 				tgt = actor.NewPID(e.Address(), fmt.Sprintf("never/%d", op.Msg%3))
-				h.add(exp{kind: "dl", tgt: tgt, snd: snd, msg: msg})
+				if !isStop {
+					h.add(exp{kind: "dl", tgt: tgt, snd: snd, msg: msg})
+				}
 			case "stopped":
 				tgt = &actor.PID{Address: h.stopped.Address, ID: h.stopped.ID}
-				h.add(exp{kind: "dl", tgt: tgt, snd: snd, msg: msg})
+				if !isStop {
+					h.add(exp{kind: "dl", tgt: tgt, snd: snd, msg: msg})
+				}
 			case "foreign":
 				tgt = actor.NewPID("other:4000", fmt.Sprintf("far/%d", op.Msg%3))
 				h.add(exp{kind: "rm", tgt: tgt, snd: snd, msg: msg})
@@ -442,12 +536,6 @@ func run(c Case, c09 bool) (feat map[string]int, err error) {
 			case "stop", "poison":
 				if op.Tgt == "foreign" || op.Tgt == "live" {
 					return nil, nil
-				}
-				// the expectation recorded above was for a user message: replace it by the stop request
-				for i := range h.expect {
-					if n := len(h.expect[i]); n > 0 && h.expect[i][n-1].kind == "dl" && h.expect[i][n-1].msg == msg && op.Tgt != "nil" {
-						h.expect[i] = h.expect[i][:n-1]
-					}
 				}
 				h.add(exp{kind: "dl", tgt: tgt, snd: nil, msg: pillMarker{}})
 				h.note("stop-request-for-an-absent-actor")
@@ -490,6 +578,35 @@ func run(c Case, c09 bool) (feat map[string]int, err error) {
 				}
 			}
 			h.note("send-" + op.Tgt)
+		case "heir":
+			// The subscriber stops, and from inside its Stopped handler a successor is spawned under the
+			// same kind and id and subscribed (the id is free again by then).  The successor is a current
+			// subscriber from that moment on: it gets its predecessor's ActorStoppedEvent and everything
+			// that follows, each once.
+			if s.gone {
+				continue
+			}
+			if err := h.barrier(); err != nil {
+				return nil, err
+			}
+			idx := op.I
+			s.mu.Lock()
+			s.heir = func(c *actor.Context) {
+				np := c.Engine().SpawnFunc(s.receive, "sub", actor.WithID(fmt.Sprint(idx)))
+				c.Engine().Subscribe(np)
+			}
+			s.mu.Unlock()
+			select {
+			case <-e.Poison(s.pid).Done():
+			case <-time.After(wait):
+				return nil, fmt.Errorf("%w: poison of a subscriber not done", errInconclusive)
+			}
+			if p := e.Registry.GetPID("sub", fmt.Sprint(idx)); p == nil {
+				return nil, fmt.Errorf("harness: the successor of sub/%d is not registered", idx)
+			}
+			h.model[op.I] = true
+			h.add(exp{kind: "life", text: "stopped:" + s.pid.ID})
+			h.note("successor-under-the-same-id-subscribed-from-Stopped")
 		case "stopsub":
 			if !c09 || s.gone {
 				continue
@@ -620,16 +737,16 @@ func (h *harness) compare(i int, log []rec, want []exp) error {
 func genCase(t *rapid.T, c09 bool) Case {
 	c := Case{Subs: rapid.IntRange(1, 4).Draw(t, "subs")}
 	n := rapid.IntRange(1, 14).Draw(t, "nops")
-	kinds := []string{"sub", "sub", "unsub", "bcast", "bcast", "burst", "life"}
+	kinds := []string{"sub", "sub", "sub", "unsub", "unsub", "bcast", "bcast", "bcast", "burst", "burst", "life", "life", "heir"}
 	if c09 {
-		kinds = []string{"sub", "sub", "unsub", "bcast", "send", "send", "send", "send", "stopsub", "life"}
+		kinds = []string{"sub", "sub", "unsub", "bcast", "send", "send", "send", "send", "stopsub", "life", "heir"}
 	}
 	for i := 0; i < n; i++ {
 		op := Op{K: rapid.SampledFrom(kinds).Draw(t, "k")}
 		switch op.K {
-		case "sub", "unsub", "stopsub":
+		case "sub", "unsub", "stopsub", "heir":
 			op.I = rapid.IntRange(0, c.Subs-1).Draw(t, "i")
-			if op.K != "stopsub" {
+			if op.K != "stopsub" && op.K != "heir" {
 				op.Copy = rapid.Bool().Draw(t, "copy")
 			}
 		case "burst":
@@ -638,6 +755,8 @@ func genCase(t *rapid.T, c09 bool) Case {
 		case "life":
 			op.Crash, op.Dup, op.Dead = rapid.Bool().Draw(t, "crash"), rapid.Bool().Draw(t, "dup"), rapid.Bool().Draw(t, "dead")
 			op.Restop = rapid.IntRange(0, 2).Draw(t, "restop") == 0
+			op.DupChild = rapid.IntRange(0, 2).Draw(t, "dupchild") == 0
+			op.SelfSend = rapid.IntRange(0, 2).Draw(t, "selfsend") == 0
 		case "send":
 			op.Tgt = rapid.SampledFrom([]string{"nil", "never", "never", "stopped", "stopped", "foreign", "foreign", "live"}).Draw(t, "tgt")
 			op.Snd = rapid.IntRange(0, 3).Draw(t, "snd")
